@@ -8,7 +8,7 @@ import ast
 from typing import Dict, List, Optional, Set, Tuple
 
 from ..core import absval, matrix
-from ..core.absval import INF, FloorOnNegative, SignEval, SignTop, accepted_intervals
+from ..core.absval import INF, FloorOnNegative, InexactDivision, SignEval, SignTop, accepted_intervals
 from ..core.model import AnchorMissing, Repo, class_methods, dotted, strip_cast
 from ..core.report import Run
 
@@ -259,6 +259,10 @@ def check(repo: Repo, run: Run) -> None:
                     except FloorOnNegative as ex:
                         verdict = False
                         msg.append(f"{s}{'+' if ss > 0 else '-'} {o}{'+' if so > 0 else '-'}: {ex.what}")
+                        continue
+                    except InexactDivision as ex:
+                        verdict = False
+                        msg.append(ex.what + " (e.g. 9007199254740993 / 1)")
                         continue
                     except SignTop as ex:
                         inconc = str(ex)
